@@ -11,7 +11,7 @@ C == Cases[tid]
 SetOf(q) == {q[k] : k \in 1..Len(q)}
 TInit == /\ tid \in 1..Len(Cases) /\ l = 1 /\ verdict = "ok"
          /\ pending = Cases[tid].pending /\ works = {} /\ registered = {} /\ armed = "none" /\ advwants = "go"
-         /\ alive = TRUE /\ progress = 0 /\ finished = {} /\ vanished = FALSE /\ advmask = "r" /\ regmask = "r"
+         /\ alive = TRUE /\ progress = 0 /\ finished = {} /\ vanished = FALSE /\ advmask = "r" /\ regmask = "r" /\ advfd = "main" /\ regfds = {}
 St == C.steps[l]
 ObsWhy(o) ==
     IF o.alive # alive' THEN (IF alive' THEN "C05 the executor loop died (" \o o.err \o ") where the isolation property demands it survives: step " \o St.act \o " " \o St.site
@@ -20,12 +20,15 @@ ObsWhy(o) ==
     ELSE IF SetOf(o.works) # works' THEN "C05 executor bookkeeping differs after " \o St.act \o ": holds works " \o ToString(SetOf(o.works)) \o ", expected " \o ToString(works')
     ELSE IF SetOf(o.registered) # registered' THEN "C05 selector registrations differ after " \o St.act \o ": " \o ToString(SetOf(o.registered)) \o ", expected " \o ToString(registered')
     ELSE IF SetOf(o.finished) # finished' THEN "C05 works shut down differ after " \o St.act \o ": " \o ToString(SetOf(o.finished)) \o ", expected " \o ToString(finished')
+    ELSE IF SetOf(o.regfds) # regfds' THEN "C05 descriptors registered for the adversary's work after " \o St.act \o ": " \o ToString(SetOf(o.regfds)) \o ", expected " \o ToString(regfds')
+                                              \o " (a descriptor the work no longer reports must be forgotten)"
     ELSE IF o.progress # progress' THEN "C05 the canary was served " \o ToString(o.progress) \o " iterations, expected " \o ToString(progress')
     ELSE "ok"
 TNext == /\ verdict = "ok" /\ l <= Len(C.steps)
          /\ CASE St.act = "Arm" -> Arm(St.site)
               [] St.act = "WantTeardown" -> WantTeardown
               [] St.act = "WantWrite" -> WantWrite
+              [] St.act = "Swap" -> Swap
               [] St.act = "Vanish" -> Vanish
               [] St.act = "Tick" -> Tick
               [] St.act = "Reap" -> Reap
